@@ -34,6 +34,9 @@ func main() {
 		printResult(r, true)
 		return
 	}
+	if os.Args[1] == "replay" {
+		os.Exit(replayMain(os.Args[2:]))
+	}
 	os.Exit(checkMain(os.Args[1:]))
 }
 
